@@ -248,7 +248,7 @@ def rule4_strings(ctx, w):
                'the next append must link behind this cell; a stale tail drops every later string but the last', loc=c.loc)
         def incr(st):
             av = affine(f, st.ops[0])
-            own = [k for k in av if k in f.insts and f.insts[k].op == 'load' and f.ap(f.insts[k].ops[0]).key() == f.ap(st.ops[1]).key()]
+            own = [k for k in av if k in f.insts and f.insts[k].op == 'load' and lib.same_addr(f, f.insts[k].ops[0], st.ops[1])]
             return len(own) == 1 and av[own[0]] == 1 and av.get('', 0) == 1 and len([k for k in av if av[k] != 0]) == 2
         ns = [st for st in f.stores_to(ST + 'n') if incr(st)]
         ctx.ob('C19.4', 'n incremented on every path', bool(ns) and f.always_passes(c, ns), 'the index handed out next is n', loc=c.loc)
